@@ -151,9 +151,10 @@ def check(run):
 
     # ------------------------------------------------------------------ T1 tables (from the AST, duplicates visible)
     def const_stmt(name):
-        if name not in mod.constants:
+        d = ix.constant_def(mod, name)
+        if d is None:
             raise AnalysisError(f"anchor vanished: {name} in transformations.py")
-        return mod.constants[name][-1]
+        return d[1]
 
     st = const_stmt("_AXES2TUPLE")
     if not isinstance(st.value, ast.Dict):
